@@ -357,6 +357,7 @@ def no_mutable_containers(h):
     remains is editing a value in place.  Every declared field of the three configuration classes is of a type without
     in-place operations (no list / set / dict), and the derived enabled_species set is handed out as a frozenset."""
     import ast
+    h.trust('the clause about declared field types is decided by a scan of the class bodies (annotation heads list / set / dict / ...), not by the solver')
     mutable = []
     for fq in CONFIG_CLASSES:
         mod, cname = fq.split(':')
